@@ -1,6 +1,6 @@
 import sys, warnings
 warnings.filterwarnings("ignore")
-sys.path.insert(0, '/repo')
+sys.path.insert(0, __import__('os').environ.get('SGZ_REPO','/repo'))
 import pkg_resources
 class _D:
     version = '0.2.9'
